@@ -281,6 +281,9 @@ pub fn systems(tier: Tier) -> Vec<(WorldSys<'static, PdMon>, (usize, usize))> {
         // slave-only instance: listening, and slave of A
         ("p2p-slaveonly-listening", 255, vec![], (5, 7)),
         ("p2p-slaveonly-slave", 255, slave.clone(), (5, 7)),
+        // a configured delay asymmetry (+200.25 ns, -1500 ns) does not enter the link delay
+        ("p2p-listening-asym+200.25", 248, vec![], (5, 7)),
+        ("p2p-slave-asym-1500", 248, slave.clone(), (5, 6)),
     ] {
         if tier == Tier::Quick && name == "p2p-passive" {
             // kept in quick too, at lower depth
@@ -288,7 +291,8 @@ pub fn systems(tier: Tier) -> Vec<(WorldSys<'static, PdMon>, (usize, usize))> {
         let mut node = NodeSpec::default();
         node.class = class;
         node.slave_only = name.contains("slaveonly");
-        node.ports = vec![PortSpec { p2p: true, ..Default::default() }];
+        let asym: i128 = if name.contains("asym+200.25") { (200i128 << 32) + (1 << 30) } else if name.contains("asym-1500") { -(1500i128 << 32) } else { 0 };
+        node.ports = vec![PortSpec { p2p: true, asymmetry_ns_frac: asym, ..Default::default() }];
         let mut cfg = WorldCfg { node: node.clone(), log_in_key: true, ..Default::default() };
         let a = Peer::gm(1, 1);
         let r1 = Peer::gm(0x51, 100);
